@@ -4,10 +4,10 @@ import json, subprocess, sys
 
 CHECKS = {
  # id: (technique, level text, level note, design ref, engine)
- "C01": ("property-based testing (proptest, 16 seeded runners) with boundary-constructed generators + exact decimal-midpoint oracle over all 8 feature configurations; second engine: coverage-guided libFuzzer target fz_round (ASan) with the same oracle inside",
+ "C01": ("[release and debug-assertion (dbgchk) builds of the harness run the same cases] property-based testing (proptest, 16 seeded runners) with boundary-constructed generators + exact decimal-midpoint oracle over all 8 feature configurations; second engine: coverage-guided libFuzzer target fz_round (ASan) with the same oracle inside",
          "Generated-input search: millions of inputs constructed on and around f64 rounding boundaries (exact midpoints, continued-fraction closest approaches, cut-off positions, seams, range ends, long tails), parsed in all 8 configurations and judged two-sidedly by an independent exact oracle. Exploration, not proof: the f64 input space cannot be enumerated, so cases are placed on the algorithms' decision boundaries.",
          "Trusts the harness's own Nat arithmetic and midpoint oracle (self-tested every run against 16 820 golden vectors from the repository's own data, std's parser, and a second arithmetic formulation). Runs natively on x86_64; the crate's 32-bit-limb code is exercised by a Miri stage (--target i686) on 48 (quick) / 1200 (thorough) generated big-integer-path inputs with oracle verdicts.",
-         "DESIGN.md section 2, C01", "mlv+libfuzzer"),
+         "DESIGN.md section 2, C01", "mlv supervisor+libfuzzer"),
  "C02": ("property-based testing (proptest) with boundary-constructed generators + exact decimal-midpoint oracle; double-rounding traps; f32 boundary sweep by enumeration in the thorough tier",
          "Same engine as C01 for f32 (f32 constants), plus the double-rounding trap family; the thorough tier enumerates f32 rounding boundaries.",
          "Same trusted base as C01 (incl. the 32-bit-limb Miri stage, f32 inputs).", "DESIGN.md section 2, C02", "mlv"),
@@ -17,24 +17,24 @@ CHECKS = {
  "C04": ("generated and grid-enumerated valid inputs under catch_unwind in two separately compiled builds (release; debug-assertions + overflow-checks + UB-precondition checks), process supervisor attributing aborts to a traced case",
          "Exploration of the panic-freedom contract over a full length x exponent x pattern x layout grid plus generated families that maximise big-integer size, in both builds and all 8 configurations.",
          "A panic site reachable only through Lemire's lo == u64::MAX fallback (a ~2^-73 coincidence) is not reached by generation.", "DESIGN.md section 2, C04", "mlv supervisor"),
- "C05": ("differential testing: 8 separately compiled feature configurations linked into one process, bit comparison on generated boundary inputs",
+ "C05": ("[release and debug-assertion (dbgchk) builds of the harness run the same cases] differential testing: 8 separately compiled feature configurations linked into one process, bit comparison on generated boundary inputs",
          "Differential oracle (no reference value needed) over the C01/C02 generator mixture for both formats.",
-         "The 32-bit-limb variant is only interpreted (Miri, i686; four configurations, oracle verdicts computed natively) on 48 inputs in the quick and 1200 in the thorough tier; big-endian targets and the x87 `nightly` path are not executed.", "DESIGN.md section 2, C05", "mlv"),
- "C06": ("property-based testing with constructed long tails: deciding digit placed at chosen absolute positions (19-digit cut, MAX_DIGITS cut, chunk edges, 1e3..1e6), expectation by construction and by the exact oracle",
+         "The 32-bit-limb variant is only interpreted (Miri, i686; four configurations, oracle verdicts computed natively) on 48 inputs in the quick and 1200 in the thorough tier; big-endian targets and the x87 `nightly` path are not executed.", "DESIGN.md section 2, C05", "mlv supervisor"),
+ "C06": ("[release and debug-assertion (dbgchk) builds of the harness run the same cases] property-based testing with constructed long tails: deciding digit placed at chosen absolute positions (19-digit cut, MAX_DIGITS cut, chunk edges, 1e3..1e6), expectation by construction and by the exact oracle",
          "Every case has >= 20 significant digits and sits on a rounding boundary; positions sweep every cut-off the code has.",
-         "Same oracle as C01.", "DESIGN.md section 2, C06", "mlv"),
+         "Same oracle as C01.", "DESIGN.md section 2, C06", "mlv supervisor"),
  "C07": ("property-based testing at the range ends: midpoints around 0 / min subnormal / min normal / MAX, zero significands, compensated and uncompensable extreme exponents, interior points of the rounding interval for subnormals of every bit length; exact oracle with the overflow/underflow thresholds built in",
          "Exploration concentrated on the IEEE thresholds and on exponent arithmetic at the i32 limits.",
          "Same oracle as C01 (exponent arithmetic in i64).", "DESIGN.md section 2, C07", "mlv"),
  "C08": ("coverage-guided fuzzing (libFuzzer target fz_bytes) under AddressSanitizer in two builds (debug assertions on / off) + proptest over hostile byte strings in release and debug-assertion builds under a process supervisor",
          "Memory-safety contract observed through ASan, core's UB-precondition checks and abnormal process exits; outcome classes value / clean panic are both accepted.",
          "UB invisible to ASan, the precondition checks and process exit status is not observed.", "DESIGN.md section 2, C08", "libfuzzer+mlv supervisor"),
- "C09": ("metamorphic property-based testing: chains of inputs ordered by construction (re-verified by exact decimal comparison), parsed bits must be non-decreasing",
+ "C09": ("[release and debug-assertion (dbgchk) builds of the harness run the same cases] metamorphic property-based testing: chains of inputs ordered by construction (re-verified by exact decimal comparison), parsed bits must be non-decreasing",
          "Order-preservation checked along generated chains that straddle rounding boundaries, algorithm seams and layouts; the rounding oracle is not consulted.",
-         "Only generated pairs are compared; each side is separately covered by C01/C02.", "DESIGN.md section 2, C09", "mlv"),
- "C10": ("metamorphic property-based testing: all re-splittings / zero paddings of one digit sequence must parse to identical bits",
+         "Only generated pairs are compared; each side is separately covered by C01/C02.", "DESIGN.md section 2, C09", "mlv supervisor"),
+ "C10": ("[release and debug-assertion (dbgchk) builds of the harness run the same cases] metamorphic property-based testing: all re-splittings / zero paddings of one digit sequence must parse to identical bits",
          "Groups of representations of one value (splits, leading fraction zeros, trailing integer zeros, appended fraction zeros) compared against the canonical member in all configurations.",
-         "Exponents stay clear of i32 saturation so value equality is exact (re-verified).", "DESIGN.md section 2, C10", "mlv"),
+         "Exponents stay clear of i32 saturation so value equality is exact (re-verified).", "DESIGN.md section 2, C10", "mlv supervisor"),
  "C11": ("direct calls of the moderate stage on an enumerated table of continued-fraction closest approaches plus generated (w,q,t), judged by the exact oracle incl. the interval condition for truncated inputs",
          "Constructed, not sampled: for each decimal exponent and binade the inputs a 64/128-bit approximation is most likely to misjudge; declines are accepted, definite answers must be right.",
          "Domain: t=true implies 1 <= w <= u64::MAX-1 (caller-established).", "DESIGN.md section 2, C11", "mlv"),
